@@ -174,6 +174,7 @@ def api_option_models(fs):
         for t in TITLES:
             out.append(dict(base, title=t))
         out.append(dict(base, assign_after=True))
+        out.append(dict(base, numpy_returns=True))
     return out
 
 
@@ -269,18 +270,26 @@ def api_objects(m, order=None):
     from atsim.potentials import potentialforms as pf
     els = order or model_elements(m)
     eam = []
+    api_defn = R.api_defn
+    if m.get('numpy_returns'):
+        # callables built on numpy / scipy (interp1d ...) return 0-d arrays
+        import numpy
+
+        def api_defn(d):   # noqa
+            f = R.api_defn(d)
+            return lambda x: numpy.array(f(x))
     for el in els:
         Z, mass, a, lat = ref_meta(m, el, 'api')
-        emb = R.api_defn(embed_defn(el)) if el in m['embed'] else pf.zero()
+        emb = api_defn(embed_defn(el)) if el in m['embed'] else pf.zero()
         if m['fs']:
             dens = {}
             for b in els:
-                dens[b] = R.api_defn(dens_fs_defn(el, b)) if ('%s->%s' % (el, b)) in m['dens'] else pf.zero()
+                dens[b] = api_defn(dens_fs_defn(el, b)) if ('%s->%s' % (el, b)) in m['dens'] else pf.zero()
             for b in m.get('extra_dict_species', []):
                 # EAMPotential objects re-used from a larger system: their dictionaries hold more species than are tabulated
                 dens[b] = R.api_defn(dens_fs_defn(el, b))
         else:
-            dens = R.api_defn(dens_defn(el)) if el in m['dens'] else pf.zero()
+            dens = api_defn(dens_defn(el)) if el in m['dens'] else pf.zero()
         if m.get('assign_after'):
             # the object is created with place-holder functions; the real ones are assigned to its public attributes afterwards
             e = ap.EAMPotential(el, Z + 1, 2.0 * mass, pf.constant(7.0), (dict((b, pf.constant(3.0)) for b in dens) if m['fs'] else pf.constant(3.0)), 9.9, 'sc')
@@ -290,7 +299,7 @@ def api_objects(m, order=None):
             eam.append(e)
             continue
         eam.append(ap.EAMPotential(el, Z, mass, emb, dens, a, lat))
-    pots = [ap.Potential(a, b, R.api_defn(pair_defn(a, b))) for a, b in all_pairs(m)]
+    pots = [ap.Potential(a, b, api_defn(pair_defn(a, b))) for a, b in all_pairs(m)]
     dip = [ap.Potential(a, b, R.api_defn(dip_defn(a, b))) for a, b in m.get('dip', [])]
     quad = [ap.Potential(a, b, R.api_defn(quad_defn(a, b))) for a, b in m.get('quad', [])]
     return pots, eam, dip, quad
